@@ -621,6 +621,27 @@ Definition hyp_marker : case -> bool :=
   ex_obs (fun _ o => match eo_out o with OOk t => existsb (String.eqb "PhantomData") t | _ => false end).
 Definition hyp_compact_wrapped : case -> bool :=
   ex_obs (fun _ o => match eo_out o with OOk t => existsb (String.eqb "Compact") t | _ => false end).
+(** the side condition of the array repeat form is exercised: some Ok example of an ARRAY entry
+    with >= 2 elements whose element type is not [copy_tyb] (the reader refuses the repeat form
+    there), resp. is [copy_tyb] and the example ends in [; <n> ]] *)
+Definition array_obs (want_copy : bool) (c : case) : bool :=
+  ex_obs (fun _ o =>
+    match eo_out o with
+    | OOk t =>
+        match lookup (c_reg c) (eo_id o) with
+        | Some ty =>
+            match t_def ty with
+            | TDArray len e =>
+                (2 <=? len) && Bool.eqb (copy_tyb (c_reg c) e) want_copy &&
+                (if want_copy then match rev t with "]" :: _ :: ";" :: _ => true | _ => false end else true)
+            | _ => false
+            end
+        | None => false
+        end
+    | _ => false
+    end) c.
+Definition hyp_array_noncopy : case -> bool := array_obs false.
+Definition hyp_array_copy_repeat : case -> bool := array_obs true.
 Definition hyp_module (c : case) : bool :=
   match parsed_module c with Some (Some _) => true | _ => false end.
 (** some Ok example mentions the root module, i.e. was checked against a generated item *)
